@@ -30,6 +30,7 @@ def _dna_edge_iterator(meta_molecule, source):
     while True:
         neighbors = meta_molecule.neighbors(source)
         src_resid = meta_molecule.nodes[source]["resid"]
+        closing_node = None
         for next_node in neighbors:
             next_resid = meta_molecule.nodes[next_node]["resid"]
             diff = src_resid - next_resid
@@ -38,10 +39,14 @@ def _dna_edge_iterator(meta_molecule, source):
                 source = next_node
                 break
 
+            # the edge back to the first node only closes a circle when
+            # there is no previous residue left, in whichever order the
+            # neighbours are listed
             if next_resid > src_resid and next_node == first_node:
-                yield (source, next_node)
-                return
+                closing_node = next_node
         else:
+            if closing_node is not None:
+                yield (source, closing_node)
             return
 
 def complement_dsDNA(meta_molecule):
@@ -65,12 +70,16 @@ def complement_dsDNA(meta_molecule):
         when the resname does not match any of the know base-pair
         names an error is raised.
     """
-    last_node = list(meta_molecule.nodes)[-1]
+    # the strand ends at the residue with the highest resid, whatever the
+    # node keys are and in whichever order the nodes were added
+    last_node = max(meta_molecule.nodes,
+                    key=lambda node: meta_molecule.nodes[node]["resid"])
     resname = BASE_LIBRARY[meta_molecule.nodes[last_node]["resname"]]
-    meta_molecule.add_monomer(last_node+1, resname, [])
+    first_new_node = max(meta_molecule.nodes) + 1
+    meta_molecule.add_monomer(first_new_node, resname, [])
 
-    correspondance = {last_node: last_node+1}
-    total = last_node+1
+    correspondance = {last_node: first_new_node}
+    total = first_new_node
 
     pbar = tqdm(total=len(meta_molecule.nodes))
     for prev_node, next_node in _dna_edge_iterator(meta_molecule, source=last_node):
